@@ -191,7 +191,7 @@ CODE = {2: "panicked only AFTER writing to the receiver (storage modified before
 # builders (all sums and products exact).  Assign forms against binary forms, scalar-left forms, methods against operators and the same
 # object on both sides, on inexact data: same outcome class (9) and values within rounding (8) -- C20 states nothing bitwise about them.
 FORM_CODE = dict(CODE)
-FORM_CODE.update({8: "the assign / scalar-left / method form differs from the binary form beyond rounding (an entry off by more than 1e-12 of the largest entry, or another shape)",
+FORM_CODE.update({8: "the assign / scalar-left / method form (or, for a polynomial, `&p * &p` with the same object on both sides) differs from the binary form beyond rounding (an entry off by more than 1e-12 of the largest entry, or another shape)",
                   9: "one form of the operation panicked where the other form, given equal operands, returned a value"})
 SELF_CODE = {4: "a by-reference operator given the SAME object on both sides does not do what it does for an equal, distinct operand (exactly representable data: every sum and product is exact, the results must be bit-identical)",
              8: "a by-reference operator given the SAME object on both sides differs beyond rounding (more than 1e-12 of the largest entry, or another shape) from what it returns for an equal, distinct operand",
